@@ -1,3 +1,110 @@
-From TV Require Import Base.
-Theorem C03_placeholder : True. Proof. exact I. Qed.
-Print Assumptions C03_placeholder.
+(* C03 -- raw channel I/O neither loses, duplicates, reorders nor over-reads bytes.
+   Property theorems only; proofs are in ProofC03.v. *)
+From TV Require Import Base BaseLemmas Utf8 Regex Channel ChannelLemmas ProofC03.
+
+(* (1) read(n), n > 0: exactly n bytes, and they are exactly what was taken from the transport *)
+Theorem C03_read_n_exact :
+  forall n tmo c d c',
+  wfc c -> 0 < n -> read (Z.of_nat n) tmo c = (Ret d, c') ->
+  length d = n /\ cpend c = d ++ cpend c' /\ same_cfg c c' /\ wfc c'.
+Proof. exact read_n_exact. Qed.
+Print Assumptions C03_read_n_exact.
+
+(* (1b) whatever the outcome (TimeoutError, death string, blocked), read(n) never takes more than n *)
+Theorem C03_read_n_never_overreads :
+  forall n tmo c r c',
+  wfc c -> 0 < n -> read (Z.of_nat n) tmo c = (r, c') ->
+  exists taken, cpend c = taken ++ cpend c' /\ length taken <= n.
+Proof. exact read_n_never_overreads. Qed.
+Print Assumptions C03_read_n_never_overreads.
+
+(* (2) a bounded iteration never takes more than its maximum; what it yields is a prefix of what it
+       took (the rest is lost only with the exception that ended it) *)
+Theorem C03_read_iter_bounded :
+  forall fuel start tmo mx got acc c chs r c',
+  wfc c -> got < mx ->
+  read_iter_loop fuel start tmo (Some mx) got acc c = (chs, r, c') ->
+  exists yielded lost,
+    concat chs = concat (rev acc) ++ yielded /\
+    cpend c = (yielded ++ lost) ++ cpend c' /\
+    got + length (yielded ++ lost) <= mx /\
+    (r = Ret tt -> lost = [] /\ got + length yielded = mx) /\
+    same_cfg c c' /\ wfc c'.
+Proof. exact read_iter_loop_spec. Qed.
+Print Assumptions C03_read_iter_bounded.
+
+(* (3) readline: exactly up to and including the FIRST line ending, nothing beyond *)
+Theorem C03_readline_exact :
+  forall fuel start tmo le line c out c',
+  wfc c -> readline_loop fuel start tmo le line c = (Ret out, c') ->
+  exists data,
+    data <> [] /\ cpend c = data ++ cpend c' /\ out = text (line ++ data) /\
+    is_suffix le (line ++ data) = true /\
+    (forall a b, data = a ++ b -> a <> [] -> b <> [] -> is_suffix le (line ++ a) = false) /\
+    same_cfg c c' /\ wfc c'.
+Proof. exact readline_loop_spec. Qed.
+Print Assumptions C03_readline_exact.
+
+(* (4) any interleaving of read(n) / read() / read_iter(max) / readline returns the transport's bytes in
+       order, each exactly once, and leaves exactly the rest unread: for every fragmentation *)
+Theorem C03_reads_conserve :
+  forall tmo ops c outs c',
+  wfc c -> Forall rd_ok ops -> run_rds tmo ops c = (Some outs, c') ->
+  exists datas, Forall2 (fun o_out d => returned (fst o_out) (snd o_out) d) (combine ops outs) datas /\
+                length outs = length ops /\
+                cpend c = concat datas ++ cpend c'.
+Proof. exact reads_conserve. Qed.
+Print Assumptions C03_reads_conserve.
+
+(* (5) write(): for EVERY partial-write behaviour of the transport exactly buf arrives, in order;
+       a buffer with a forbidden byte is rejected before anything is sent *)
+Theorem C03_write_complete :
+  forall buf ign c r c',
+  slow_ok c -> write buf ign c = (r, c') ->
+  (r = Ret tt /\ wr (io c') = wr (io c) ++ buf /\ wcfg c c' /\
+     (ign = false -> any_in (blacklist c) buf = false)) \/
+  (r = EIllegal /\ c' = c /\ ign = false /\ any_in (blacklist c) buf = true).
+Proof. exact write_complete. Qed.
+Print Assumptions C03_write_complete.
+
+(* (6) send(): what reaches the transport is always a prefix of the payload, free of forbidden
+       bytes, and it is the whole payload unless IllegalDataException is raised *)
+Theorem C03_send_prefix :
+  forall s c r c',
+  slow_ok c -> send s false None c = (r, c') ->
+  exists sent rest,
+    s = sent ++ rest /\ wr (io c') = wr (io c) ++ sent /\ any_in (blacklist c) sent = false /\
+    ((r = Ret tt /\ rest = []) \/ (r = EIllegal /\ any_in (blacklist c) (firstn SEND_SLICE rest) = true)).
+Proof. exact send_prefix. Qed.
+Print Assumptions C03_send_prefix.
+
+(* (7) sendline appends exactly one CR; sendcontrol sends exactly one byte and is the only bypass *)
+Theorem C03_sendline_appends_cr :
+  forall s rb tmo c, sendline s rb tmo c = send (s ++ [CR]) rb tmo c.
+Proof. exact sendline_is_send. Qed.
+Print Assumptions C03_sendline_appends_cr.
+
+Theorem C03_sendcontrol_one_byte :
+  forall ch c r c',
+  slow_ok c -> sendcontrol ch c = (r, c') ->
+  (r = Ret tt /\ wr (io c') = wr (io c) ++ [(ch - 64)%N] /\ (64 <= ch <= 95)%N) \/
+  (r = EAssert /\ c' = c).
+Proof. exact sendcontrol_one_byte. Qed.
+Print Assumptions C03_sendcontrol_one_byte.
+
+(* (8) slow-send: every request is at most slow_send_chunksize bytes and is followed by one sleep *)
+Theorem C03_slow_send_step :
+  forall f x buf c delay csz,
+  slow c = Some (delay, csz) ->
+  write_loop (S f) (x :: buf) c =
+  let (k, io') := io_write (firstn csz (x :: buf)) (io c) in
+  write_loop f (skipn k (x :: buf)) (with_io c (io_sleep delay io')).
+Proof. exact write_loop_slow_step. Qed.
+Print Assumptions C03_slow_send_step.
+
+(* non-vacuity: a concrete interleaving *)
+Theorem C03_example :
+  let c := chan_init [(0%Z, [97; 13; 10]%N); (0%Z, [98; 10; 99]%N)] [] in
+  fst (run_rds None [RdN 1; RdLine [13; 10]%N; RdIter 2; RdAny] c) = Some [[97]; [10]; [98; 10]; [99]]%N.
+Proof. exact reads_conserve_example. Qed.
+Print Assumptions C03_example.
